@@ -889,7 +889,13 @@ fn check_case(t: &Tables, case: &Value) -> Value {
             return fail(v, ops.len() - 1, &raw_ops[ops.len() - 1], &drift);
         }
     }
-    json!({"verdict": "ok", "drift": drift,
+    // the model's abstract keys, passed through for the runner's hash relations
+    let mticks: Vec<Value> = case["pred"]["ticks"].as_array().map(|a| a.iter().map(|m| {
+        let mut em: Vec<String> = m["emitted"].as_array().map(|e| e.iter().map(Value::to_string).collect()).unwrap_or_default();
+        em.sort();
+        json!({"set": em.join(","), "channels": m["channels"].to_string(), "ckey": m["ckey"]})
+    }).collect()).unwrap_or_default();
+    json!({"verdict": "ok", "drift": drift, "last": raw_ops.last().map(|o| o["a"].clone()), "res": case["res"], "pol": case["pol"].to_string(), "mticks": mticks,
            "ticks": w.ticks.iter().map(TickReal::json).collect::<Vec<_>>(),
            "stats": {"commits": stats.commits, "aborts": stats.aborts, "aborts_with_emissions": stats.aborts_with_emissions, "failed_commits": stats.failed_commits,
                      "emits": stats.emits, "dups": stats.dups, "conflicts": stats.conflicts, "publishes": stats.publishes, "frames": stats.frames,
